@@ -335,6 +335,20 @@ pub fn plan_input(mode: u8, dir: &std::path::Path, file_name: &str, content: &[u
     }
 }
 
+/// Run a block of harness code that calls the engine OUTSIDE the per-case guards (setting up
+/// operands, filling tables): if the engine panics there — a broken engine may well — that is a
+/// violation observed by this check (the engine "did not return"), never a harness error.
+pub fn engine_block(st: &mut crate::report::Stats, prop: &str, what: &str, f: impl FnOnce(&mut crate::report::Stats)) {
+    let mut local = crate::report::Stats::new();
+    let r = crate::util::guarded(|| f(&mut local));
+    st.merge(local);
+    match r {
+        Ok(()) => {}
+        Err(crate::util::Caught::Budget(_)) => st.bump("budget_exceeded(not judged)"),
+        Err(c) => st.violate(&format!("{}.panic", prop.to_lowercase()), format!("{}:{}:{}", prop, what, c.signature()), format!("{}: the engine panicked while the operands were being built: {:?}", what, c), serde_json::json!({"kind": what})),
+    }
+}
+
 /// An environment whose table already holds `filler` entries (variables with labels from 1 000 000
 /// upwards, far from anything a check uses): 2.2 million [quick] / 17 million [thorough] — beyond
 /// 2^21 resp. 2^24. What an operation computes must not depend on how full the table is.
